@@ -511,8 +511,12 @@ pub fn c11(a: &Args) {
                 }
             }
         }
-        // entry formats: harper-wasm JSON config and harper-ls settings, overlaid on curated defaults
+        // entry formats: harper-wasm JSON config and harper-ls settings, overlaid on curated defaults - the defaults of
+        // the curated group built for the dialect in use
         let dict = FstDictionary::curated();
+        let dialects = [(Dialect::American, harper_wasm::Dialect::American), (Dialect::British, harper_wasm::Dialect::British),
+            (Dialect::Canadian, harper_wasm::Dialect::Canadian), (Dialect::Australian, harper_wasm::Dialect::Australian)];
+        let mut jobs: Vec<(String, serde_json::Map<String, Value>, usize)> = Vec::new();
         for i in 0..a.num("overlays", 60) as usize {
             let text = rng.pick(&corpus[..]).clone();
             let mut user = serde_json::Map::new();
@@ -520,20 +524,50 @@ pub fn c11(a: &Args) {
                 let k = if rng.chance(1, 5) { format!("Unknown{}", rng.below(5)) } else { rng.pick(&names[..]).clone() };
                 user.insert(k, if rng.chance(1, 6) { Value::Null } else { json!(rng.chance(1, 2)) });
             }
-            // expected: curated defaults, explicit user values on top, unknown names ignored
-            let mut want_cfg = LintGroupConfig::new_curated();
-            for (k, v) in &user { if let Value::Bool(b) = v { want_cfg.set_rule_enabled(k, *b); } }
+            jobs.push((text, user, i % 4));
+        }
+        // where a dialect's group and the shared table of defaults disagree about a rule, texts on which that rule
+        // speaks are checked under that dialect (the disagreement itself is not judged, what the user gets is)
+        {
+            let table = LintGroupConfig::new_curated();
+            for (di, (d, _)) in dialects.iter().enumerate() {
+                let group_cfg = LintGroup::new_curated(dict.clone(), *d).config.clone();
+                let differing: Vec<&String> = names.iter().filter(|n| group_cfg.is_rule_enabled(n) != table.is_rule_enabled(n)).take(6).collect();
+                for rule in differing {
+                    let mut only = LintGroup::new_curated(dict.clone(), *d);
+                    only.set_all_rules_to(Some(false));
+                    only.config.set_rule_enabled(rule.as_str(), true);
+                    let mut found = 0;
+                    for t in corpus.iter() {
+                        if found >= 3 { break; }
+                        if catch(|| only.lint(&make_doc(t, "plain")).len()).unwrap_or(0) > 0 {
+                            found += 1;
+                            jobs.push((t.clone(), serde_json::Map::new(), di));
+                            let mut u = serde_json::Map::new();
+                            u.insert(rng.pick(&names[..]).clone(), json!(rng.chance(1, 2)));
+                            u.remove(rule.as_str());
+                            jobs.push((t.clone(), u, di));
+                        }
+                    }
+                }
+            }
+        }
+        for (i, (text, user, di)) in jobs.into_iter().enumerate() {
+            let (dialect, wdialect) = dialects[di];
+            // expected: the curated group of this dialect, explicit user values on top, unknown names ignored
+            let mut want_cfg = LintGroup::new_curated(dict.clone(), dialect).config.clone();
+            for (k, v) in &user { if let Value::Bool(b) = v { if names.contains(k) { want_cfg.set_rule_enabled(k, *b); } } }
             let want = catch(|| {
-                let mut lg = LintGroup::new_curated(dict.clone(), Dialect::American).with_lint_config(want_cfg.clone());
+                let mut lg = LintGroup::new_curated(dict.clone(), dialect).with_lint_config(want_cfg.clone());
                 lg.lint(&make_doc(&text, "plain")).iter().map(lint_digest).collect::<Vec<_>>()
             });
             let ujson = Value::Object(user.clone());
             let got_wasm = catch(|| {
-                let mut l = harper_wasm::Linter::new(harper_wasm::Dialect::American);
+                let mut l = harper_wasm::Linter::new(wdialect);
                 l.set_lint_config_from_json(ujson.to_string()).unwrap();
                 // JSON round trip of the stored configuration
                 let back = l.get_lint_config_as_json();
-                let mut l2 = harper_wasm::Linter::new(harper_wasm::Dialect::American);
+                let mut l2 = harper_wasm::Linter::new(wdialect);
                 l2.set_lint_config_from_json(back).unwrap();
                 let a1: Vec<(usize, usize, String)> = l.lint(text.clone(), harper_wasm::Language::Plain).iter().map(|x| (x.span().start, x.span().end, x.message())).collect();
                 let a2: Vec<(usize, usize, String)> = l2.lint(text.clone(), harper_wasm::Language::Plain).iter().map(|x| (x.span().start, x.span().end, x.message())).collect();
@@ -541,19 +575,19 @@ pub fn c11(a: &Args) {
             });
             let got_ls = catch(|| {
                 let cfg = crate::config::Config::from_lsp_config(json!({"harper-ls": {"linters": ujson}})).unwrap();
-                let mut lg = LintGroup::new_curated(dict.clone(), Dialect::American).with_lint_config(cfg.lint_config);
+                let mut lg = LintGroup::new_curated(dict.clone(), dialect).with_lint_config(cfg.lint_config);
                 lg.config.fill_with_curated();
                 lg.lint(&make_doc(&text, "plain")).iter().map(lint_digest).collect::<Vec<_>>()
             });
             // the wasm API removes overlaps; compare it on (span, message) against the same treatment of `want`
             let want_wasm = catch(|| {
-                let mut lg = LintGroup::new_curated(dict.clone(), Dialect::American).with_lint_config(want_cfg.clone());
+                let mut lg = LintGroup::new_curated(dict.clone(), dialect).with_lint_config(want_cfg.clone());
                 let mut l = lg.lint(&make_doc(&text, "plain"));
                 harper_core::remove_overlaps(&mut l);
                 l.iter().map(|x| (x.span.start, x.span.end, x.message.clone())).collect::<Vec<_>>()
             });
             if let (Ok(want), Ok((w1, w2)), Ok(ls), Ok(ww)) = (want, got_wasm, got_ls, want_wasm) {
-                out.emit(&json!({"ev": "Overlay", "i": i, "text": text, "user": ujson.to_string(), "want": want, "ls": ls,
+                out.emit(&json!({"ev": "Overlay", "i": i, "text": text, "user": ujson.to_string(), "want": want, "ls": ls, "dialect": format!("{dialect:?}"),
                     "wasm_ok": w1 == ww, "wasm_roundtrip_ok": w1 == w2}));
             }
         }
